@@ -111,6 +111,11 @@ impl<Octs: Octets> NotificationMessage<Octs> {
         let _code = parser.parse_u8()?;
         let _subcode = parser.parse_u8()?;
 
+        // code() and details() index the octets taken below
+        if hdr.length() < 21 {
+            return Err(ParseError::form_error("message length <21"))
+        }
+
         // Now, their might be variable length data from the current position
         // to the end of the message. There is no length field.
         // The data depends on the code/subscode.
